@@ -847,7 +847,7 @@ func (fa *FA) generalize(goal *Lin, b *ssa.BasicBlock, c *pctx) bool {
 // phi blocks further up (chains of joins).
 func (fa *FA) addGoalCands(goal *Lin, b *ssa.BasicBlock, c *pctx, depth int) bool {
 	A := fa.A
-	if depth > 3 {
+	if depth > 5 {
 		return false
 	}
 	var cands []*ssa.BasicBlock
